@@ -38,27 +38,27 @@ CLAIMED.update({
 
 CLAIMED.update({
  "C09": dict(
-   text="Structural clauses of work-group dispatch on all paths: the three placement algorithms checked as siblings of one interface (valid location only after a successful reservation on the named CU for the reserved work-group; counter and slot updated on the success path; FreeResources/HasNext shapes), SEND-DISCIPLINE and PAIR on the map request, completion accounting per ID with the message consumed, launch response only under kernelCompleted() whose three conjuncts are verified, idle-dispatcher selection in the CP, reserve/commit/clear/free symmetry of CUResourceImpl (mask sets, status constants, slot counts, offset granularities, unit counts). Non-overlap of masks for every demand sequence is value level and not decided.",
+   text="Structural clauses of work-group dispatch on all paths: the three placement algorithms checked as siblings of one interface (valid location only after a successful reservation on the named CU for the reserved work-group; counter and slot updated on the success path; FreeResources/HasNext shapes), SEND-DISCIPLINE and PAIR on the map request, completion accounting per ID with the message consumed, launch response only under kernelCompleted() whose three conjuncts are verified, idle-dispatcher selection in the CP, reserve/commit/clear/free symmetry of CUResourceImpl (mask sets, status constants, slot counts, offset granularities, unit counts; the LDS demand is the dispatch packet's size, static plus dynamic, on both the reserve and the free side). Non-overlap of masks for every demand sequence is value level and not decided.",
    ref="4/C09", technique="SIBLINGS over implementations of one interface, SSA path analysis (SEND-DISCIPLINE, must-pass), dominance cuts with phi-fact pruning (GUARD), value provenance, constant tables",
-   note="resourceMask internals, gridbuilder and the CU-side completion (C14) not covered here"),
+   note="resourceMask internals, gridbuilder and the CU-side completion (C14) not covered here; one defect (LDS demand ignored dynamic local memory) found and repaired by a fix: commit"),
  "C11": dict(
-   text="Structural clauses of host-device copies: the range-overlap predicate decided on all 75 weak orderings of its arguments (order-domain abstract interpretation of its comparison skeleton), completion only on an empty outstanding list / finished request collection, six splitting loops (chunk = min(remaining, address-dependent unit remainder), one step for all cursors, slice and size = chunk), piece addressing via the page found for the address, SEND-DISCIPLINE of DMA/CP/driver send stages, clone FIELDS, flush-before-copy ordering and CP gates. Byte equality for all offsets/lengths is not decided.",
+   text="Structural clauses of host-device copies: the range-overlap predicate decided on all 75 weak orderings of its arguments (order-domain abstract interpretation of its comparison skeleton), completion only on an empty outstanding list / finished request collection, six splitting loops (chunk = min(remaining, address-dependent unit remainder), one step for all cursors, slice and size = chunk), piece addressing via the page found for the address, SEND-DISCIPLINE of DMA/CP/driver send stages, clone FIELDS, flush-before-copy ordering and CP gates, dirty marks, and a copy command enters the running state only for a non-zero size. Byte equality for all offsets/lengths is not decided.",
    ref="4/C11", technique="order-domain abstract interpretation (ORDER-DOMAIN), SSA loop-shape analysis of splitting loops, SSA path analysis (SEND-DISCIPLINE, must-pass), dominance cuts (GUARD), value provenance (FIELDS)",
-   note="arithmetic over runtime values, zero-length copies and cache flush effectiveness not decided; 3 unchecked Sends of the CP middleware recorded as known findings; memRangeOverlap containment defect repaired by a fix: commit"),
+   note="arithmetic over runtime values and cache flush effectiveness not decided; 3 unchecked Sends of the CP middleware recorded as known findings; two defects (memRangeOverlap containment, zero-length copies never completing) repaired by fix: commits"),
 })
 
 CLAIMED.update({
  "C06": dict(
-   text="Lane non-interference argued per vector handler of both ALUs on SSA, for all EXEC masks and all paths: lane loops are 0..63; every lane write, storage access and LDS access uses the loop's lane and is dominated by the CFG edge on which that lane's EXEC bit (from state.EXEC()) is set, with polarity checked; every operand read in a lane loop reads the loop's lane; VCC/EXEC/SCC are used through lane i's own bit only (lane-mask accumulators whose updates touch only the updating lane's bit are recognised); no loop-carried value reaches a lane write; scalar destinations are written outside the loops; scalar handlers do not read EXEC. Relative to the InstEmuState contract (C07).",
+   text="Lane non-interference argued per vector handler of both ALUs on SSA, for all EXEC masks and all paths: lane loops are 0..63; every lane write, storage access and LDS access uses the loop's lane and is dominated by the CFG edge on which that lane's EXEC bit (from state.EXEC()) is set, with polarity checked; every operand read in a lane loop reads the loop's lane; VCC/EXEC/SCC are used through lane i's own bit only (lane-mask accumulators whose updates touch only the updating lane's bit are recognised); no loop-carried value reaches a lane write; scalar destinations are written outside the loops; scalar handlers do not read EXEC; the lane index is used only as a selector (accessor lane, mask bit position, per-lane array index), never in the arithmetic that produces the written value. Relative to the InstEmuState contract (C07).",
    ref="4/C06", technique="SSA dataflow: natural lane loops, dominance of CFG edges (guard with polarity), backward data slices for loop-carried values, lane-mask accumulator recognition, documented-exception table",
-   note="what value a lane computes is not decided; helpers that receive the lane as a parameter are judged at call sites; v_readfirstlane is the only exception (both ALUs); one defect (v_div_scale_f64 SDst) found and repaired by a fix: commit"),
+   note="what value a lane computes is not decided; helpers that receive the lane as a parameter are judged at call sites; v_readfirstlane is the only exception (both ALUs); two defects (v_div_scale_f64 SDst, v_cvt_f16_f32 fraction computed from the lane index) found and repaired by fix: commits"),
 })
 
 CLAIMED.update({
  "C04": dict(
-   text="Totality and determinism of decoding decided from the tables and the shape of amd/insts: the format table (mask/encoding consistency, overlap and specificity order, opcode fields) which makes format matching independent of map order and sort stability; the decode table of about 1000 rows evaluated from constant expressions (duplicates, field widths, VOP3b routing, dispatch coverage); every getOperand call site against the computed set of defined operand codes using an interval analysis of the code argument; per-format bounds of every buffer access; size accounting; error handling at the three callers. The inverse property decode(encode(d)) = d is value level and not decided.",
+   text="Totality and determinism of decoding decided from the tables and the shape of amd/insts: the format table (mask/encoding consistency, overlap and specificity order, opcode fields) which makes format matching independent of map order and sort stability; the decode table of about 1000 rows evaluated from constant expressions (duplicates, field widths, VOP3b routing, dispatch coverage); every getOperand call site against the computed set of defined operand codes using an interval analysis of the code argument; per-format bounds of every buffer access; size accounting incl. the single literal dword shared by two literal operands; error handling at the three callers. The inverse property decode(encode(d)) = d is value level and not decided.",
    ref="4/C04", technique="constant-table evaluation from the type-checked syntax (TABLE), interval analysis on SSA (INTERVAL), dominance cuts (GUARD), decision-table evaluation of getOperand's switch",
-   note="field extraction positions versus the ISA manuals are not compared; two genuine defects (dropped getOperand errors, unguarded buf[:4]) found and repaired by a fix: commit"),
+   note="field extraction positions versus the ISA manuals are not compared; three genuine defects (dropped getOperand errors, unguarded buf[:4], literal dword counted twice in SOP2/SOPC) found and repaired by fix: commits"),
 })
 
 CLAIMED.update({
@@ -77,9 +77,9 @@ CLAIMED.update({
 
 CLAIMED.update({
  "C03": dict(
-   text="ISA rules that are uniform across opcodes and visible in the code shape, for both ALUs and all paths: dispatch integrity of every opcode switch (one handler per case, panicking default, listed functional no-ops only), ALL-OR-NONE of condition-code writes in every handler, shift-amount intervals in every handler of a shift instruction (handlers tied to instruction names through decode table, dispatch switch and callee), destination-only operand writes and PC/EXEC writers restricted by instruction name. Bit-exact arithmetic conformance needs an executable ISA transcription and is not decided.",
+   text="ISA rules that are uniform across opcodes and visible in the code shape, for both ALUs and all paths: dispatch integrity of every opcode switch (one handler per case, panicking default, listed functional no-ops only), ALL-OR-NONE of condition-code writes in every handler, shift-amount intervals in every handler of a shift instruction (handlers tied to instruction names through decode table, dispatch switch and callee), destination-only operand writes and PC/EXEC writers restricted by instruction name, carry predicates of carry-in instructions evaluated in 64 bits, every float-to-integer conversion of an operand value reached only after range tests on the floating-point value (and no clamp that the operand's type makes dead), no result variable left at its zero value by an open if/else-if chain. Bit-exact arithmetic conformance needs an executable ISA transcription and is not decided.",
    ref="4/C03", technique="constant-table evaluation (decode table and dispatch switches), must-pass path analysis (ALL-OR-NONE), interval analysis on SSA (INTERVAL), who-may-write",
-   note="arithmetic, rounding, saturation and comparison semantics of individual opcodes are not decided; two defect families (one-sided SCC, unmasked shifts) found and repaired by fix: commits"),
+   note="arithmetic, rounding, saturation and comparison semantics of individual opcodes are not decided; defect families found and repaired by fix: commits: one-sided SCC, unmasked shifts, v_cvt_i32_f32 saturation tested after conversion, v_div_scale_f64 default result and denormal classification"),
 })
 
 CLAIMED.update({
@@ -91,30 +91,30 @@ CLAIMED.update({
 
 CLAIMED.update({
  "C10": dict(
-   text="Structural clauses of device memory management on all paths: a lockset analysis of the allocator (every field access under the embedded mutex; helpers reached only from lock-holding call sites), pairing of every page-table write with the allocator's vAddr mirror plus who-may-write the page table, physical addresses taken only from the device memory state, no container mutated while ranged in the driver packages, page-granular cursor and size arithmetic. Invariants over allocate/free/remap histories are state-machine properties and are not decided.",
+   text="Structural clauses of device memory management on all paths: a lockset analysis of the allocator (every field access under the embedded mutex; helpers reached only from lock-holding call sites), pairing of every page-table write with the allocator's vAddr mirror plus who-may-write the page table, physical addresses taken only from the device memory state, no container mutated while ranged in the driver packages, page-granular cursor and size arithmetic, Free looping over exactly the page count recorded at allocation with a one-page stride, the key shape of the allocator's page maps (process + virtual address), every page's DeviceID derived from its own physical address, and release of the previous physical page when a virtual page is re-homed. Invariants over allocate/free/remap histories are state-machine properties and are not decided.",
    ref="4/C10", technique="lockset dataflow with call-site propagation (guarded-by), PAIR and who-may-write on SSA, syntactic range-mutation rule, value provenance of cursor arithmetic",
-   note="disjointness of live physical pages over histories, multi-page Free, cross-process mirror collisions and the buddy allocator are not decided; two defects (stale mirror entry on free, mutate-while-ranging in removeFreedBuffers) found and repaired by fix: commits"),
+   note="disjointness of live physical pages over histories and the buddy allocator's internal state are not decided; four defects (stale mirror entry on free, mutate-while-ranging in removeFreedBuffers, Free releasing only the first page, remapped pages recorded on a unified device) repaired by fix: commits; three known findings (mirror keyed without the PID; old physical page leaked by Remap and by migration)"),
 })
 
 CLAIMED.update({
  "C05": dict(
-   text="Structural sources of host-dependent order and values in all code that runs inside a simulation (driver, emulator, decoder, kernels, protocol, sampling, every timing component, timing configuration, NVIDIA model): every range over a map is classified as order-insensitive or carries a one-line exception that is re-validated where possible (InstType.ID has no reader), host-dependent value sources are enumerated against an exception table whose sinks are checked to have no reader, goroutines / multi-way selects and unstable sorts are inventoried. Equality of whole runs across host schedules is a runtime quantity and is not decided.",
+   text="Structural sources of host-dependent order and values in all code that runs inside a simulation (driver, emulator, decoder, kernels, protocol, sampling, every timing component, timing configuration, NVIDIA model): every range over a map is classified as order-insensitive or carries a one-line exception that is re-validated where possible (InstType.ID has no reader), host-dependent value sources are enumerated against an exception table whose sinks are checked to have no reader, goroutines / multi-way selects and unstable sorts are inventoried, and whoever wakes the simulation goroutine returns to the application only with the queue found empty (the engine never runs while the single application thread is still enqueueing). Equality of whole runs across host schedules is a runtime quantity and is not decided.",
    ref="4/C05", technique="type-resolved syntactic classification of map ranges, source/sink enumeration with who-may-read, inventory of concurrency constructs and sorts",
    note="akita's engines are outside /repo; the parallel engine and float summation order inside kernels are not decided; one defect (map-order iteration in page migration) found and repaired by a fix: commit"),
 })
 
 CLAIMED.update({
  "C14": dict(
-   text="Structural clauses of execution ordering in the timing compute unit and the emulator's barrier resolution, on all paths: completion only with both outstanding-access counters at zero, the scalar/LGKM and vector/VM comparison pairs of the wait count, ownership and last-piece guarding of the counters, accepted-state sets of the barrier predicates evaluated as decision tables and compared with {at barrier, completed}, barrier release only under those predicates, work-group completion message only when all other wavefronts completed with resources released only after a successful send. The issue-trace ordering under all latencies is a schedule property and is not decided.",
+   text="Structural clauses of execution ordering in the timing compute unit and the emulator's barrier resolution, on all paths: completion only with both outstanding-access counters at zero, the scalar/LGKM and vector/VM comparison pairs of the wait count, increment sites and caller-propagated last-piece guarding of every counter decrement, accepted-state sets of the barrier predicates evaluated as decision tables and compared with {at barrier, completed}, barrier release only under those predicates, work-group completion message only when all other wavefronts completed with resources released only after a successful send. The issue-trace ordering under all latencies is a schedule property and is not decided.",
    ref="4/C14", technique="dominance cuts with phi-fact pruning (GUARD), decision-table evaluation of sibling predicates (SIBLINGS), who-may-write, SSA path analysis (SEND-DISCIPLINE)",
    note="scoreboard hazards, SIMM16 field ranges and memory-latency schedules are not decided; one defect (completed wavefronts not counted as arrived at a barrier, both modes) found and repaired by a fix: commit"),
 })
 
 CLAIMED.update({
  "C02": dict(
-   text="Four necessary conditions of functional transparency of timing mode, decided structurally: architectural state of timing wavefronts is changed only through the shared emulation ALU (who-may-call with a frozen allow-list; ALU obtained only from emu.NewALU or the injected factory); the initial-register code of the two modes is reduced to comparable summaries (enable flag, bytes reserved, value; lane-id registers incl. the V5 packed form); the SMEM and FLAT opcode sets of both ALUs and of the timing units agree, including dedicated write-back cases for loads whose emulation handler transforms the bytes; cache flushes precede copies that touch dirty buffers. Equality of final memory and PC traces is a runtime quantity and is not decided.",
+   text="Five necessary conditions of functional transparency of timing mode, decided structurally: architectural state of timing wavefronts is changed only through the shared emulation ALU (who-may-call with a frozen allow-list; ALU obtained only from emu.NewALU or the injected factory); the initial-register code of the two modes is reduced to comparable summaries (enable flag, bytes reserved, value; lane-id registers incl. the V5 packed form); the SMEM and FLAT opcode sets of both ALUs and of the timing units agree, including, for sub-dword loads, the number of memory bytes that reach the register and their sign/zero extension in the timing write-back versus the emulation handler; cache flushes precede copies that touch dirty buffers; the timing-only outstanding-access counters are decremented only through the last-piece test of a memory return (in the function or all its callers). Equality of final memory and PC traces is a runtime quantity and is not decided.",
    ref="4/C02", technique="who-may-call on SSA, summaries of sibling functions from the type-checked syntax (SIBLINGS), opcode-set comparison of dispatch switches (TABLE), must-pass path analysis",
-   note="coalescer and write-back value correctness, scoreboard hazards, caches and DRAM are not decided; three defects (s_load_dwordx16, flat_load_sbyte write-back, V5 packed ids in timing) repaired by fix: commits; two SGPR-reservation divergences recorded as known findings"),
+   note="coalescer and write-back value correctness, scoreboard hazards, caches and DRAM are not decided; four defects (s_load_dwordx16, flat_load_sbyte and flat_load_ushort write-back, V5 packed ids in timing) repaired by fix: commits; two SGPR-reservation divergences recorded as known findings"),
 })
 
 CLAIMED.update({
